@@ -23,7 +23,10 @@ type Script struct {
 	NoReadBody   bool     // do not read the request body
 	WaitFlushAck chan int // lock-step streaming: after flushing part k, block until k is acknowledged
 	Hijack       func(c net.Conn, rw *bufio.ReadWriter, r *http.Request)
-	Echo         []string // request headers copied into the response
+	Echo         []string      // request headers copied into the response
+	Delay        time.Duration // wait before answering (request is "waiting for backend headers")
+	PartDelay    time.Duration // wait after each flushed part (response is "mid-body")
+	Arrived      chan struct{} // signalled (non-blocking) when the request has arrived
 }
 
 // Seen is what the backend received.
@@ -64,6 +67,9 @@ type Backend struct {
 	active int
 	Probes int
 	Health int // status answered to active probes (0 = 200)
+	// ProbeDelay keeps a probe in flight; ProbeArrived is signalled (non-blocking) when one arrives
+	ProbeDelay   time.Duration
+	ProbeArrived chan struct{}
 }
 
 // ProbePath is the active health-check path the harness configures, kept apart from client traffic.
@@ -146,7 +152,17 @@ func (b *Backend) serve(w http.ResponseWriter, r *http.Request) {
 		b.mu.Lock()
 		b.Probes++
 		st := b.Health
+		pd, pa := b.ProbeDelay, b.ProbeArrived
 		b.mu.Unlock()
+		if pa != nil {
+			select {
+			case pa <- struct{}{}:
+			default:
+			}
+		}
+		if pd > 0 {
+			time.Sleep(pd)
+		}
 		if st == 0 {
 			st = 200
 		}
@@ -171,6 +187,15 @@ func (b *Backend) serve(w http.ResponseWriter, r *http.Request) {
 		w.Header().Set("X-Backend", b.Name)
 		fmt.Fprintf(w, "ok from %s", b.Name)
 		return
+	}
+	if sc.Arrived != nil {
+		select {
+		case sc.Arrived <- struct{}{}:
+		default:
+		}
+	}
+	if sc.Delay > 0 {
+		time.Sleep(sc.Delay)
 	}
 	if sc.Hijack != nil {
 		hj := w.(http.Hijacker)
@@ -216,6 +241,9 @@ func (b *Backend) serve(w http.ResponseWriter, r *http.Request) {
 		}
 		if sc.FlushEach && fl != nil {
 			fl.Flush()
+		}
+		if sc.PartDelay > 0 && i < len(sc.Parts)-1 {
+			time.Sleep(sc.PartDelay)
 		}
 		if sc.WaitFlushAck != nil {
 			select {
